@@ -67,6 +67,11 @@ S1 == << Doc("S1", "enum-odd-case", EnumS(<<JS(<<"r","e","d">>), JS(<<"R","E","D
          Doc2("S1", "alias-plain", SRef("N"), "N", SStr),
          Doc("S1", "untagged-strs", SOneOf(<< [type |-> "string", format |-> "uuid"], [type |-> "string", format |-> "ipv4"] >>)),
          Doc2("S1", "untagged-newtypes", SOneOf(<< SRef("A"), SRef("B") >>) @@ << >>, "A", [type |-> "string", pattern |-> "^a+$"]),
+         Doc("S1", "untagged-same-type-twice", SOneOf(<< Titled([type |-> "string", format |-> "uuid"], "Id"),
+                                                         Titled([type |-> "string", format |-> "uuid"], "LegacyId"),
+                                                         Titled([type |-> "string", maxLength |-> 3], "Name") >>)),
+         Doc("S1", "untagged-two-plain-strings", SOneOf(<< Titled([type |-> "string", pattern |-> "^a+$"], "As"),
+                                                           Titled([type |-> "string", pattern |-> "^a+$"], "AlsoAs") >>)),
          Doc("S1", "untagged-enum-and-uuid", SOneOf(<< EnumS(<<JS(<<"x">>), JS(<<"y">>)>>), [type |-> "string", format |-> "uuid"] >>)) >>
 FixS1 == [i \in DOMAIN S1 |->
             IF S1[i].id = "untagged-newtypes"
